@@ -198,6 +198,40 @@ class Rendered:
             return int(name)
         raise cparse.CParseError(f"unknown index macro {name}")
 
+    # ---------------------------------------------------------------- local bindings of the two functions
+    def local_bindings(self, which):
+        """[(guards, name, rhs)]: the scalar definitions that precede the equations of Fex (`which == "fex"`) or Jac, with the
+        conditional compilation resolved by the real preprocessor against this project's naunet_macros.h"""
+        import subprocess
+        from .cbuild import SHIM
+        b = self.backend
+        if b == "rosenbrock4":
+            text = _read(self.path, "src/naunet_ode.cpp")
+            name = "Fex::operator()" if which == "fex" else "Jac::operator()"
+            start = r"ydot\[" if which == "fex" else r"\bj\s*\("
+        elif b == "cusparse":
+            text = _read(self.path, f"src/naunet_{which}.cu", f"src/naunet_{which}.cpp")
+            name = "FexKernel" if which == "fex" else "JacKernel"
+            start = r"ydot\[" if which == "fex" else r"\bdata\["
+        else:
+            text = _read(self.path, f"src/naunet_{which}.cpp")
+            name = "Fex" if which == "fex" else "Jac"
+            start = r"ydot\[" if which == "fex" else (r"IJth\s*\(" if b == "dense" else r"\bdata\[")
+        # keep the preprocessor lines: function_body strips comments only
+        body = cparse.function_body(text, name)
+        m = re.search(r"(?:(?<=\n)|(?<=[{;]))[ \t]*" + start + r"[^;=]*=(?!=)", body)
+        if m:
+            body = body[:m.start()]
+        src = '#include "naunet_macros.h"\nVERIF_BODY_BEGIN\n' + body + "\n"
+        r = subprocess.run(["g++", "-E", "-P", "-x", "c++", f"-I{self.path / 'include'}", f"-I{SHIM / 'include'}", "-"],
+                           input=src, capture_output=True, text=True)
+        if r.returncode != 0 or "VERIF_BODY_BEGIN" not in r.stdout:
+            raise cparse.CParseError(f"preprocessor failed on the body of {name}: {r.stderr[-200:]}")
+        out = r.stdout.split("VERIF_BODY_BEGIN", 1)[1]
+        if b == "cusparse":
+            out = re.sub(r"\by_cur\b", "y", out)
+        return cparse.scalar_statements(out)
+
     # ---------------------------------------------------------------- Jacobian
     def jac(self):
         """returns dict with 'entries': {(r,c): rhs}, and for CSR back-ends 'rowptr','cols'"""
